@@ -18,4 +18,4 @@ run_one() {
   git -C /repo worktree remove --force $WT
 }
 export -f run_one
-echo $SEEDS | tr ' ' '\n' | xargs -P 6 -I{} bash -c 'run_one {}'
+echo $SEEDS | tr ' ' '\n' | xargs -P ${SEED_JOBS:-3} -I{} bash -c 'run_one {}'
